@@ -231,6 +231,18 @@ def files(ck, prop, tmp, n):
             continue
         bg_in = rng.choice([0, 0, 1, 300])
         bg_out = rng.random() < 0.35
+        # C10 ("plain or BGZF, any number of blocks"): now and then an output of several BGZF blocks (> 64 KiB of text),
+        # where virtual offsets are not byte counts
+        big = prop == "C10" and (it in (1, n // 2) or rng.random() < 0.03)
+        if big:
+            more = []
+            for k in range(len(lines), 450):
+                w = gen.walk(rng, g, adj, maxsteps=5)
+                if len({g.seg(nm)["SN"] for nm, o in w if g.seg(nm)["SR"] == 0}) > 1:
+                    continue
+                more.append(gen.walk_record(rng, g, w, "r%d" % k, canonical=False))
+            lines = [l + "\tzz:Z:" + "pad" * rng.randint(30, 70) for l in lines + more]
+            bg_out = True
         outind = "custom.idx" if rng.random() < 0.2 else None
         gfa_text = g.text(with_seq=False)
         obs = runner.run(gfa_text, lines, bg_in, bg_out, outind)
@@ -261,6 +273,8 @@ def files(ck, prop, tmp, n):
         ck.count("records:%s" % ("1" if len(lines) == 1 else "2-9" if len(lines) < 10 else "10-59" if len(lines) < 60 else "60+"))
         ck.count("in:%s out:%s" % ("bgzf" if bg_in else "plain", "bgzf" if bg_out else "plain"))
         ck.count("unknown-present" if "unknown" in sns else "unknown-absent")
+        if bg_out and obs["outcome"] == "ok":
+            ck.count("bgzf-output-blocks:%s" % min(3, len({o >> 16 for o in obs["offs"]})))
         if not r["valid"]:
             ck.count("invalid-input")
             continue
